@@ -29,7 +29,7 @@ for f in sorted(os.listdir(props)):
         reg[pid] = {'modules': ['MsmVerif.Props.' + modname], 'theorems': thms}
 # refinement theorems (translated kernel = model), MsmVerif/Refine/<Topic>.lean: obligations of the properties whose kernels they cover
 # an entry is a property id, or (property id, regex on the theorem name) when only part of a module concerns the property
-REFINE_MAP = {'Msm': ['C01', 'C11'], 'Coring': ['C05'], 'Events': ['C06', 'C11'], 'Mcmc': ['C07', 'C08'], 'Compare': ['C13'],
+REFINE_MAP = {'Msm': ['C01', 'C11'], 'Coring': ['C05'], 'Events': ['C06', 'C11'], 'Mcmc': ['C07', 'C08', ('C18', r'^(chain|wt_loop|tt_loop|step)_refines$|^draws_exhausted$')], 'Compare': ['C13'],
               'Norm': [('C01', r'row_normalize'), ('C03', r'row_normalize'), ('C04', r'row_normalize'), ('C19', r'split_array'),
                        ('C09', r'calc_times')],
               'Ergodic': ['C14', ('C04', r'is_ergodic|ergodic_mask|is_tmat|is_quadratic|npPow'), ('C03', r'is_ergodic|is_tmat|is_quadratic|npPow')],
